@@ -149,3 +149,83 @@ theorem no_race_state_of_rows (t : List Access) (ht : disciplineOk t = true)
       exact (hmem r hrt).2 (hl' ▸ hl)
 
 end TaskModel.Race
+
+/-! ## decidable forms of the hypotheses (to apply the corollary to a concrete program) -/
+namespace TaskModel.Race
+open Threads
+
+section
+variable {C : Type} [DecidableEq C]
+
+theorem opAt_bounds (P : Prog String String C) (th i : Nat) (o : Op String String C) (h : opAt P th i = some o) :
+    th < P.length ∧ i < (body P th).length := by
+  constructor
+  · unfold opAt at h
+    cases hP : P[th]? with
+    | none => simp [hP] at h
+    | some b => exact (List.getElem?_eq_some_iff.mp hP).1
+  · rw [opAt_body] at h
+    exact (List.getElem?_eq_some_iff.mp h).1
+
+/-- all positions of the program satisfy `p` -/
+def allPos (P : Prog String String C) (p : Nat → Nat → Op String String C → Bool) : Bool :=
+  (List.range P.length).all fun th => (List.range (body P th).length).all fun i =>
+    match opAt P th i with
+    | some o => p th i o
+    | none => true
+
+theorem allPos_spec (P : Prog String String C) (p : Nat → Nat → Op String String C → Bool)
+    (h : allPos P p = true) (th i : Nat) (o : Op String String C) (ho : opAt P th i = some o) : p th i o = true := by
+  obtain ⟨h1, h2⟩ := opAt_bounds P th i o ho
+  simp only [allPos, List.all_eq_true, List.mem_range] at h
+  have := h th h1 i h2
+  simpa [ho] using this
+
+def coveredB (t : List Access) (P : Prog String String C) : Bool :=
+  allPos P fun th i o =>
+    match o with
+    | .access l w => t.any (fun r => r.loc == l && r.write == w && r.locks.all (fun m => (heldAt (body P th) i).contains m))
+    | _ => true
+
+theorem coveredB_sound (t : List Access) (P : Prog String String C) (h : coveredB t P = true) : Covered t P := by
+  intro th i l w ho
+  have := allPos_spec P _ h th i _ ho
+  simp only [List.any_eq_true, Bool.and_eq_true, beq_iff_eq, List.all_eq_true, List.contains_eq_mem,
+    decide_eq_true_eq] at this
+  obtain ⟨r, hr, ⟨hl, hw⟩, hm⟩ := this
+  exact ⟨r, hr, hl, hw, hm⟩
+
+/-- the `ChanSynced` conditions, checked position by position -/
+def chanSyncedB (P : Prog String String C) (c : C) (l : String) (t0 : Nat) : Bool :=
+  allPos P fun t k o =>
+    match o with
+    | .close c' => decide (c' ≠ c) || decide (t = t0)
+    | .access l' w =>
+      decide (l' ≠ l) ||
+        (if t = t0 then
+          !w || allPos P (fun t2 k2 o2 => match o2 with
+            | .close c2 => decide (t2 ≠ t0) || decide (c2 ≠ c) || decide (k < k2)
+            | _ => true)
+        else !w && (List.range k).any (fun k' => decide (opAt P t k' = some (.recv c))))
+    | _ => true
+
+theorem chanSyncedB_sound (P : Prog String String C) (c : C) (l : String) (t0 : Nat)
+    (h : chanSyncedB P c l t0 = true) : ChanSynced P c l t0 := by
+  refine ⟨?_, ?_, ?_⟩
+  · intro t k hc
+    have := allPos_spec P _ h t k _ hc
+    simpa using this
+  · intro i hi k hk
+    have := allPos_spec P _ h t0 i _ hi
+    simp only [ne_eq, not_true_eq_false, decide_false, if_true, Bool.not_true, Bool.false_or] at this
+    have := allPos_spec P _ this t0 k _ hk
+    simpa using this
+  · intro t j w hne hj
+    have := allPos_spec P _ h t j _ hj
+    simp only [ne_eq, not_true_eq_false, decide_false, if_neg hne, Bool.false_or, Bool.and_eq_true,
+      Bool.not_eq_true', List.any_eq_true, List.mem_range, decide_eq_true_eq] at this
+    obtain ⟨hw, k, hk, hrecv⟩ := this
+    exact ⟨hw, k, hk, hrecv⟩
+
+end
+end TaskModel.Race
